@@ -192,7 +192,8 @@ def _c06_meta(text):
 
 def run_c06(ctx):
     n = _tier(ctx, 16, 200)
-    jobs = pc.generated_jobs('C06', ctx['seed'], n, ['assets'])
+    jj, _ = _jobs_from(scen.join, 'C06j', ctx['seed'], max(6, n // 2))
+    jobs = pc.generated_jobs('C06', ctx['seed'], n, ['assets']) + jj
     metas = {name: _c06_meta(text) for name, text in jobs}
 
     def orc(tr, origin):
